@@ -89,7 +89,7 @@ func uintBits(t types.Type) (bits int, unsigned bool, ok bool) {
 func c04Narrowing(r *core.Report) {
 	const rule = "C04.R1"
 	p := r.Prog
-	table := loadExemptTable("c04_exempt.json")
+	table := loadExemptTable(r.Prog, "c04_exempt.json")
 	used := map[string]bool{}
 	for _, f := range c04Funcs(p) {
 		if f.Body == nil {
@@ -139,7 +139,7 @@ func c04Narrowing(r *core.Report) {
 				nd := g.NodeOf(x.Pos())
 				limit := int64(1)<<uint(tb) - 1
 				ok2 := operandBounded(g, info, nd, x.Args[0], limit)
-				key := fmt.Sprintf("%s#narrow:%s", f.Key, core.ExprStr(x))
+				key := fmt.Sprintf("%s#narrow:%s", f.Key, core.KeyStr(f, x))
 				emit(key, x, ok2, fmt.Sprintf("the operand is bounded to %d by a dominating guard", limit),
 					fmt.Sprintf("%s narrows a %d-bit value to %d bits without a dominating guard: a larger value is silently truncated and the index is built or read with a wrong length/stride/count instead of failing", core.ExprStr(x), sb, tb))
 			case *ast.BinaryExpr:
@@ -153,7 +153,7 @@ func c04Narrowing(r *core.Report) {
 				if _, isConst := core.ConstInt(info, x); isConst {
 					return true
 				}
-				key := fmt.Sprintf("%s#uint8-arith:%s", f.Key, core.ExprStr(x))
+				key := fmt.Sprintf("%s#uint8-arith:%s", f.Key, core.KeyStr(f, x))
 				emit(key, x, false, "", fmt.Sprintf("8-bit arithmetic %s can wrap around: a value size close to 255 yields a tiny entry stride and Seal panics or corrupts the entries", core.ExprStr(x)))
 			}
 			return true
@@ -262,8 +262,9 @@ func c04Layout(r *core.Report) {
 					}
 					return true
 				})
-				s := core.ExprStr(ret)
-				// both compute a local offsetSize from "the value size": normalise its definition
+				// both compute a local offsetSize from "the value size": locals are printed by type, so the two returns are
+				// compared up to the names of their locals (the definition of the local is compared separately)
+				s := core.ShapeStr(f, ret)
 				return s
 			}
 			defOf := func(f *core.Func) string {
@@ -372,7 +373,7 @@ func c04Layout(r *core.Report) {
 			vo = ins.ParamObj(1)
 		}
 		_ = g
-		ok := vo != nil && invariantHolds(p, ins, []string{"len(" + vo.Name() + ")", "getValueSize()"}, 0) == ""
+		ok := vo != nil && invariantHolds(p, ins, []string{"len(" + core.LocalToken(ins, vo) + ")", "getValueSize()"}, 0) == ""
 		_ = info
 		r.Check(ok, rule, "compactindexsized#insert-checks-value-length", posP(r, ins.Pos()), "Insert rejects a value that does not fit the declared value size",
 			"Insert does not compare the value's length with the declared value size: a longer value is silently truncated in the spill file, so lookups return a different value than was inserted")
